@@ -55,11 +55,11 @@ func main() { vlib.Run("C37", run) }
 
 func run(c *vlib.Ctx) {
 	c.Rule("one case = one virtual network of 2-6 fully connected testinstance nodes (link latency fixed 0/1/5/20 ms or per-link uniform, provider-search delay 1s/200ms/50ms), 4-24 unique blocks (CIDv0 and CIDv1-raw) placed on 0-3 nodes each (some only after the requests started), 1-7 requests {GetBlocks, session.GetBlocks on shared sessions, GetBlock} with duplicate keys started within 0-30 ms on 1-3 requester nodes, cancellation {never, after k deliveries, immediately, timer}. Strata: complete = no cancellation, only obtainable keys; mix = everything; cancel = every request cancelled; in these three, fetches on one session never share a key (that is the trigger of the known same-session defects); sessshare = two staggered fetches on one session share all keys, nothing cancelled; sesscancel = the same with the first one cancelled. distinct = FNV of the observed history shape (per request: kind, node, keys, distinct keys, deliveries, how it ended); non-trivial = a block was delivered from a remote node and (two requests of one node overlapped in logical time and shared a key, or a request was cancelled after >= 1 delivery)")
-	c.Cases("complete", c.N(24, 500), func(k *vlib.Case) { netCase(k, "complete") })
-	c.Cases("mix", c.N(32, 600), func(k *vlib.Case) { netCase(k, "mix") })
-	c.Cases("cancel", c.N(24, 500), func(k *vlib.Case) { netCase(k, "cancel") })
-	c.Cases("sessshare", c.N(8, 120), func(k *vlib.Case) { netCase(k, "sessshare") })
-	c.Cases("sesscancel", c.N(8, 80), func(k *vlib.Case) { netCase(k, "sesscancel") })
+	c.Cases("complete", c.N(16, 400), func(k *vlib.Case) { netCase(k, "complete") })
+	c.Cases("mix", c.N(24, 500), func(k *vlib.Case) { netCase(k, "mix") })
+	c.Cases("cancel", c.N(16, 400), func(k *vlib.Case) { netCase(k, "cancel") })
+	c.Cases("sessshare", c.N(4, 80), func(k *vlib.Case) { netCase(k, "sessshare") })
+	c.Cases("sesscancel", c.N(4, 64), func(k *vlib.Case) { netCase(k, "sesscancel") })
 }
 
 // ---------------------------------------------------------------- script
@@ -1016,7 +1016,13 @@ func (w *world) checkCleanup(phase string, already map[string]bool, closeSession
 			case nrecv > 0 && released[fmt.Sprint(node, "/", c.KeyString())]:
 				// the block reached this node, yet a session kept wanting it until
 				// the session itself was closed
-				class = "want-not-cleared/received-but-held-until-session-close"
+				class = "want-not-cleared/received-but-held-until-session-close/sole-request"
+				if len(hist) >= 2 {
+					// another request of this node wanted the same CID: the block may
+					// have been published to the session fetch before its session had
+					// registered the want
+					class = "want-not-cleared/received-but-held-until-session-close/shared-key"
+				}
 			case nrecv > 0:
 				// the block reached this node (tracer) and the want is an orphan:
 				// it survives the end of every request and session of the node
@@ -1031,7 +1037,7 @@ func (w *world) checkCleanup(phase string, already map[string]bool, closeSession
 					}
 				}
 			}
-			if phase == "sessions-closed" {
+			if phase == "sessions-closed" && class != "want-not-cleared/orphan-after-receipt" {
 				class += "/only-after-session-close"
 			}
 			kind := "want-have/broadcast"
